@@ -506,7 +506,12 @@ func main() {
 	gcPercent := flag.Int("gcpercent", 600, "GOGC for the engine (the SSA program is a large, static live heap)")
 	genDC := flag.String("gen-deepcopy", "", "write the generated DeepCopy harness to this file and exit")
 	genList := flag.String("gen-list", "", "write the list of generated entries to this file")
+	genUn := flag.String("gen-unions", "", "write the generated union-dispatch harness to this file and exit")
 	flag.Parse()
+	if *genUn != "" {
+		genUnions(*dir, strings.Split(*pkgPat, ","), *genUn, *genList)
+		return
+	}
 	if *genDC != "" {
 		genDeepCopy(*dir, strings.Split(*pkgPat, ","), *genDC, *genList)
 		return
